@@ -51,6 +51,13 @@ CvcAltOk(r) ==
      /\ IF r.mask = 0 THEN r.rc0 = "OK" /\ r.rck = "OK" /\ r.rcv = "OK" /\ r.rcv2 = "OK"
         ELSE r.rck # "OK" /\ r.rcv # "OK" /\ r.rcv2 # "OK"
 
+\* the self-signed certificate read in the self-check mode (pubkey == cvc->pubkey, pubkey_len == 0): the signature is
+\* verified on the certificate's own public key, so the unaltered certificate is accepted and every altered one refused
+CvcAltSelfOk(r) ==
+  /\ Len(r.cert) = Len(r.orig)
+  /\ \A i \in 1..Len(r.cert) : r.cert[i] = (IF i = r.pos /\ r.mask # 0 THEN r.orig[i] ^^ r.mask ELSE r.orig[i])
+  /\ (r.rcs = "OK") = (r.mask = 0)
+
 \* ---------------------------------------------------------------- bpki containers (bpki.h, PKCS#8 / PKCS#5)
 \* dotted decimal string (character codes) of a sequence of arcs
 DecCodes(v) == IF v = 0 THEN <<48>> ELSE
@@ -101,6 +108,7 @@ LineOk(r) ==
   IF r.e = "Reset" THEN TRUE
   ELSE IF r.op \in {"bpkiW", "bpkiU"} THEN BpkiOk(r)
   ELSE IF r.op = "cvcAlt" THEN CvcAltOk(r)
+  ELSE IF r.op = "cvcAltSelf" THEN CvcAltSelfOk(r)
   ELSE IF r.op \in {"inc", "cmdW", "cmdU", "respW", "respU", "alter"} THEN SmLineOk(r)
   ELSE FALSE
 
